@@ -190,7 +190,11 @@ def worker_main(prop_id, tier, seed, shard, nshards, out_path):
         # 1. enumerated part (seed independent), split round-robin over the shards
         enum = getattr(mod, "enumerate_cases", None)
         if enum is not None:
-            for i, case in enumerate(enum(tier)):
+            cases = list(enum(tier))
+            cost = getattr(mod, "case_cost", None)
+            if cost is not None:   # longest-processing-time-first dealing keeps the shards balanced
+                cases.sort(key=lambda c: -cost(c))
+            for i, case in enumerate(cases):
                 if i % nshards != shard:
                     continue
                 ctx.last_case = case
